@@ -116,7 +116,6 @@ Definition all_good (c : wcase) : bool :=
 (* -------- guard clauses, evaluated on failing cases to name the class *)
 Definition cl_wf (c : wcase) := match itree_of_events (c_evs c) with Some _ => true | None => false end.
 Definition cl_user_prefixes (c : wcase) := user_prefixes_legal (c_user c).
-Definition cl_default_attr (c : wcase) := default_not_on_attr (c_cfg c) (c_user c) (c_evs c).
 Definition cl_default_qname (c : wcase) := default_qname_ok (c_user c) (c_evs c).
 Definition cl_uris (c : wcase) := uris_ok (c_evs c).
 Definition cl_names (c : wcase) := names_ok (c_evs c).
